@@ -74,6 +74,17 @@ def descendants(schema, c):
     return out
 
 
+FLAG_OPTION = {"dialect": "ADD_DIALECT_SUPPORT", "omit_none": "TO_DICT_ADD_OMIT_NONE_FLAG",
+               "by_alias": "TO_DICT_ADD_BY_ALIAS_FLAG"}
+
+
+def class_flags(schema, c):
+    """code generation options of class c other than the serialization context"""
+    if schema.get("mixed_flags"):
+        return [f for f in ("omit_none", "by_alias", "dialect") if f in schema["classes"][c].get("flags", [])]
+    return ["dialect"] if schema.get("dialect") else []
+
+
 def name_ty(schema, n):
     return schema["names"][str(n)]["ty"]
 
@@ -124,7 +135,8 @@ PRELUDE = '''\
 import copy
 from dataclasses import dataclass, field
 from typing import Any, Dict, List, Optional, Tuple, Union
-from mashumaro.config import BaseConfig, ADD_SERIALIZATION_CONTEXT, ADD_DIALECT_SUPPORT
+from mashumaro.config import (BaseConfig, ADD_SERIALIZATION_CONTEXT, ADD_DIALECT_SUPPORT,
+                              TO_DICT_ADD_OMIT_NONE_FLAG, TO_DICT_ADD_BY_ALIAS_FLAG)
 from mashumaro.dialect import Dialect
 from mashumaro.types import Discriminator
 {mixin_import}
@@ -217,10 +229,14 @@ def class_source(schema) -> str:
         if h.get("postde"):
             body.append("    __post_deserialize__ = classmethod(_post_de)")
         cfg = []
-        if schema.get("dialect"):
-            # every class opts in to ADD_DIALECT_SUPPORT (uniformly, so the flag lists of union members agree on it)
-            cfg.append("code_generation_options = [ADD_DIALECT_SUPPORT"
-                       + (", ADD_SERIALIZATION_CONTEXT]" if ctx_on(schema, c) else "]"))
+        fl = class_flags(schema, c)
+        if schema.get("dialect") or schema.get("mixed_flags"):
+            # explicit Config on every class: the effective options do not depend on Config inheritance.
+            # "dialect": True = every class opts in to ADD_DIALECT_SUPPORT (uniformly, so the flag lists of union
+            # members agree on it); "mixed_flags" (union-free schemas only) = each class has its own subset of
+            # ADD_DIALECT_SUPPORT / TO_DICT_ADD_OMIT_NONE_FLAG / TO_DICT_ADD_BY_ALIAS_FLAG
+            opts = [FLAG_OPTION[f] for f in fl] + (["ADD_SERIALIZATION_CONTEXT"] if ctx_on(schema, c) else [])
+            cfg.append("code_generation_options = [" + ", ".join(opts) + "]")
         elif k["own_ctx"] is not None:
             cfg.append("code_generation_options = " + ("[ADD_SERIALIZATION_CONTEXT]" if k["own_ctx"] else "[]"))
         if k.get("disc"):
